@@ -96,6 +96,26 @@ impl Fx {
             Fx::Slit(x) => ser(x),
         }
     }
+    /// the raw in-memory form (`zerocopy::IntoBytes::as_bytes`) of the tables that have one: a second
+    /// public way to the image, which must agree with the serialisation after every operation (C14)
+    fn raw(&self) -> Option<Vec<u8>> {
+        use zerocopy::IntoBytes;
+        match self {
+            Fx::Bert(x) => Some(x.as_bytes().to_vec()),
+            Fx::Tcpas(x) => Some(x.as_bytes().to_vec()),
+            Fx::Rsdp(x) => Some(x.as_bytes().to_vec()),
+            Fx::Facs(x) => Some(x.as_bytes().to_vec()),
+            _ => None,
+        }
+    }
+    /// observation after construction / after an operation
+    fn obs(&self) -> String {
+        let img = self.image();
+        match self.raw() {
+            Some(r) if r != img => format!("rawdiff:{}:{}", hex(&img), hex(&r)),
+            _ => hex(&img),
+        }
+    }
 }
 
 fn parse_opt(t: &str) -> (String, Vec<u64>) {
@@ -132,7 +152,7 @@ pub fn run_fix(toks: &[&str]) -> String {
         Ok(f) => f,
         Err(_) => return "panic".to_string(),
     };
-    let mut out = vec![hex(&fx.image())];
+    let mut out = vec![fx.obs()];
     for tok in toks[5..].iter().filter(|x| **x != ";") {
         let (nm, v) = parse_opt(tok);
         let r = std::panic::catch_unwind(std::panic::AssertUnwindSafe(|| {
@@ -177,7 +197,7 @@ pub fn run_fix(toks: &[&str]) -> String {
             };
         }));
         match r {
-            Ok(()) => out.push(hex(&fx.image())),
+            Ok(()) => out.push(fx.obs()),
             Err(_) => { out.push("panic".to_string()); break; }
         }
     }
